@@ -124,8 +124,14 @@ impl<Body> AmendedRequest<Body> {
         self.headers
             .iter()
             .map(|v| (&v.0, &v.1))
-            .chain(self.request.headers().iter())
-            .filter(|v| !self.unset.iter().any(|x| x == v.0))
+            .chain(
+                // Unset only applies to the headers of the original request, not
+                // to the headers added for this specific call.
+                self.request
+                    .headers()
+                    .iter()
+                    .filter(|v| !self.unset.iter().any(|x| x == v.0)),
+            )
     }
 
     fn headers_get_all(&self, key: &'static str) -> impl Iterator<Item = &HeaderValue> {
